@@ -57,7 +57,7 @@ func init() {
 				n = 6
 			}
 			out = append(out, seeded("C11", seed, n, func(i int, sd uint64) *k.Spec {
-				s := &k.Spec{Params: cp(c03Confs[int(k.H(sd, "conf", 0)%6)])}
+				s := &k.Spec{Seed: sd, Params: cp(c03Confs[int(k.H(sd, "conf", 0)%6)])}
 				swarm(s, "grpc_stdio.go,stream.go,rpc_server.go:RPCServer.ServeConn,rpc_client.go,server.go:Serve")
 				if s.DelayClass == "big" {
 					s.DelayClass = "mid"
